@@ -11,7 +11,7 @@ namespace {
 static Op mk(int code, int64_t a = 0, const Bytes &b = Bytes(), int64_t c = 0) { Op o; o.code = code; o.a = a; o.b = b; o.c = c; return o; }
 
 // reference: the pieces one write call contributes (independent of src/binson_writer.c)
-struct RefOp { std::vector<Bytes> pieces; bool null_error = false; bool refused = false; };
+struct RefOp { std::vector<Bytes> pieces; bool null_error = false; bool refused = false; size_t phantom = 0; };   // phantom: bytes that are counted but can never be stored (a length Binson cannot encode)
 static Bytes cstr(Bytes b) { size_t z = 0; while (z < b.size() && b[z]) z++; b.resize(z); return b; }
 
 static RefOp ref_of(const Op &o) {
@@ -25,8 +25,10 @@ static RefOp ref_of(const Op &o) {
         case W_INT: { Bytes d; enc_int(d, o.a); r.pieces.push_back(d); break; }
         case W_DOUBLE: { Bytes d; d.push_back(0x46); uint64_t v = (uint64_t)o.a; for (int i = 0; i < 8; i++) { d.push_back((uint8_t)(v & 0xff)); v >>= 8; } r.pieces.push_back(d); break; }
         case W_STRING: case W_NAME: blob(0x14, cstr(o.b)); break;
-        case W_STRING_LEN: blob(0x14, o.b); break;
-        case W_BYTES: blob(0x18, o.b); break;
+        // o.a > 0: the caller claims a length of o.a * 2^31 + |b| bytes, beyond what a Binson length field can hold: the FORMAT
+        // class of the writer. Nothing is stored; the counter advances by the 9-byte header the library would need plus the length
+        case W_STRING_LEN: if (o.a > 0) r.phantom = 9 + o.b.size() + (size_t)o.a * 0x80000000ULL; else blob(0x14, o.b); break;
+        case W_BYTES: if (o.a > 0) r.phantom = 9 + o.b.size() + (size_t)o.a * 0x80000000ULL; else blob(0x18, o.b); break;
         case W_RAW: r.pieces.push_back(o.b); break;      // possibly empty: a zero-length piece fits whenever nothing failed before
         case W_STRING_NULL: case W_RAW_NULL: r.null_error = true; break;
         case W_TO_WRITER:        // see WSession: only variant 1 stands on a container ({"b":1}); 4 = NULL parser (API error class); others append nothing and fail without latching
@@ -69,7 +71,11 @@ static Bytes payload(Rng &r, int tier) {
     if (c < 50) len = r.below(12);
     else if (c < 85) len = edges[r.below(10)];
     else if (c < 95) len = 100 + r.below(200);
-    else len = (tier || r.chance(1, 3)) ? (r.chance(1, 2) ? 32760 + r.below(16) : 65530 + r.below(4500)) : 300 + r.below(400);
+    else if (tier || r.chance(1, 3)) {
+        static const size_t X[] = {65535, 65536, 65537, 131070, 131071, 131072, 131073, 196606, 196607, 196608};   // block counts of a 16-bit chunked copy
+        unsigned h = (unsigned)r.below(6);
+        len = h < 2 ? 32760 + r.below(16) : h < 4 ? 65530 + r.below(12) : h == 4 ? X[r.below(10)] : 65530 + r.below(4500);
+    } else len = 300 + r.below(400);
     Bytes b(len);
     uint8_t seed = (uint8_t)r.below(256);
     for (size_t i = 0; i < len; i++) b[i] = (uint8_t)(1 + (seed + i * 7) % 255);        // no accidental 0x00: the NUL-terminated entry points must see the full length
@@ -109,11 +115,11 @@ Plan capacity_generate(uint64_t base, const std::string &prop, uint64_t index, i
                 case 4: p.ops.push_back(mk(W_BOOL, (int64_t)ro.below(2))); break;
                 case 5: case 6: p.ops.push_back(mk(W_INT, interesting_int(ro))); break;
                 case 7: p.ops.push_back(mk(W_DOUBLE, (int64_t)interesting_double(ro))); break;
-                case 8: p.ops.push_back(mk(W_STRING, 0, payload(ro, tier))); break;
-                case 9: p.ops.push_back(mk(W_NAME, 0, payload(ro, tier))); break;
-                case 10: p.ops.push_back(mk(W_STRING_LEN, 0, payload(ro, tier))); break;
-                case 11: p.ops.push_back(mk(W_BYTES, 0, payload(ro, tier))); break;
-                case 12: p.ops.push_back(mk(W_RAW, 0, payload(ro, tier))); break;
+                case 8: p.ops.push_back(mk(W_STRING, 0, payload(ro, tier || prop == "C16"))); break;
+                case 9: p.ops.push_back(mk(W_NAME, 0, payload(ro, tier || prop == "C16"))); break;
+                case 10: p.ops.push_back(mk(W_STRING_LEN, 0, payload(ro, tier || prop == "C16"))); break;
+                case 11: p.ops.push_back(mk(W_BYTES, 0, payload(ro, tier || prop == "C16"))); break;
+                case 12: p.ops.push_back(mk(W_RAW, 0, payload(ro, tier || prop == "C16"))); break;
                 case 13: p.ops.push_back(mk(W_TO_WRITER, (int64_t)ro.below(prop == "C09" ? 5 : 4) + 5 * (int64_t)ro.below(AUX_DOCS))); break;
                 default: p.ops.push_back(mk(ro.chance(1, 2) ? W_COUNTER : W_VERIFY)); break;
             }
@@ -137,6 +143,13 @@ Plan capacity_generate(uint64_t base, const std::string &prop, uint64_t index, i
         }
         if (ro.chance(1, 6)) p.ops.insert(p.ops.begin() + (long)ro.below(p.ops.size() + 1), mk(ro.chance(1, 2) ? W_STRING_NULL : W_RAW_NULL, 3));
         if (ro.chance(1, 25)) { p.par["null_init"] = 1; p.faults.push_back("F8:null_destination"); }
+        {   // the FORMAT class of the writer: a string / bytes length beyond what the format can encode (2^31 .. 2^34 + a few bytes)
+            Rng rx = r.fork("overlong");
+            static const int64_t K[] = {1, 2, 3, 4, 5, 8, 16};
+            auto overlong = [&]() { Bytes b(rx.below(6)); for (auto &x : b) x = (uint8_t)('a' + rx.below(26)); return mk(rx.chance(1, 2) ? W_BYTES : W_STRING_LEN, K[rx.below(7)], b); };
+            if (rx.chance(1, 6)) p.ops.insert(p.ops.begin() + (long)rx.below(p.ops.size() + 1), overlong());
+            if (rx.chance(1, 6)) p.ops2.insert(p.ops2.begin() + (long)rx.below(p.ops2.size() + 1), overlong());
+        }
     }
     p.prefill = rd.next() | 1;
     p.par["only_cap"] = -1;
@@ -152,19 +165,21 @@ Result capacity_execute(const Plan &p, const ExecCtx &c) {
     std::vector<RefOp> ref; Bytes E; std::vector<size_t> bounds;     // bounds: piece start offsets
     bool has_null = p.P("null_init") != 0;
     for (auto &o : p.ops) { ref.push_back(ref_of(o)); if (ref.back().null_error) has_null = true; for (auto &pc : ref.back().pieces) { bounds.push_back(E.size()); E.insert(E.end(), pc.begin(), pc.end()); } }
-    size_t S = E.size();
+    size_t Sreal = E.size(), S = E.size();
+    bool has_phantom = false;
+    for (auto &ro : ref) if (ro.phantom) { S += ro.phantom; has_phantom = true; }
     std::vector<RefOp> ref2; for (auto &o : p.ops2) ref2.push_back(ref_of(o));
     // ---- capacities
     std::vector<size_t> caps;
     int64_t only = p.P("only_cap", -1);
     if (only >= 0) caps.push_back((size_t)only);
-    else if (S <= 4096) { for (size_t cc = 0; cc <= S + 3; cc++) caps.push_back(cc); bump(r.cnt, "capacity.axis_exhaustive_sequences"); }
+    else if (Sreal <= 4096) { for (size_t cc = 0; cc <= Sreal + 3; cc++) caps.push_back(cc); bump(r.cnt, "capacity.axis_exhaustive_sequences"); }
     else {
         std::set<size_t> s; s.insert(0); s.insert(1);
         for (size_t b : bounds) for (long d = -2; d <= 2; d++) { long v = (long)b + d; if (v >= 0) s.insert((size_t)v); }
-        for (long d = -2; d <= 3; d++) s.insert((size_t)((long)S + d));
+        for (long d = -2; d <= 3; d++) s.insert((size_t)((long)Sreal + d));
         Rng rc(p.seed ^ 0xC0FFEE);
-        for (int i = 0; i < 256; i++) s.insert(rc.below(S + 4));
+        for (int i = 0; i < 256; i++) s.insert(rc.below(Sreal + 4));
         caps.assign(s.begin(), s.end());
     }
     bool cut_mid_token = false;
@@ -185,6 +200,7 @@ Result capacity_execute(const Plan &p, const ExecCtx &c) {
         auto apply_ref = [&](const RefOp &ro) -> bool {      // returns expected return value of the call
             if (ro.null_error) { if (!failed) { failed = true; k = used; } nullerr = true; return false; }
             if (ro.refused) return false;        // nothing to extract: returns false, writer untouched (no latch)
+            if (ro.phantom) { if (!failed) { failed = true; k = used; } used += ro.phantom; return false; }
             for (auto &pc : ro.pieces) {
                 if (!failed && used + pc.size() <= cap) { stored = used + pc.size(); }
                 else if (!failed) { failed = true; k = used; if (used < cap) cut_mid_token = true; }
@@ -198,8 +214,10 @@ Result capacity_execute(const Plan &p, const ExecCtx &c) {
             bool was_failed = failed;
             bool want = apply_ref(ref[oi]);
             Outcome o = ws.call(p.ops[oi]);
-            if (o.ret != want) sink.fail(was_failed ? "C09.writer.write_true_after_failure" : "C04.return", fmt("cap=%zu: call %zu (%s) returned %d, expected %d", cap, oi, OP_NAMES[p.ops[oi].code], o.ret, want));
-            if (o.used != used) sink.fail(was_failed ? "C09.writer.counter_stopped" : "C04.counter", fmt("cap=%zu: counter=%zu after call %zu (%s), reference size %zu", cap, o.used, oi, OP_NAMES[p.ops[oi].code], used));
+            bool error_class_op = ref[oi].null_error || ref[oi].phantom;      // a call that must RAISE an error of the NULL / FORMAT class
+            if (o.ret != want) sink.fail(was_failed ? "C09.writer.write_true_after_failure" : error_class_op ? "C09.writer.error_not_raised" : "C04.return", fmt("cap=%zu: call %zu (%s) returned %d, expected %d", cap, oi, OP_NAMES[p.ops[oi].code], o.ret, want));
+            if (error_class_op && !was_failed && o.err == 0) sink.fail("C09.writer.error_not_raised", fmt("cap=%zu: call %zu (%s) must fail (NULL argument / length beyond the format's limit) but left the error indicator at NONE", cap, oi, OP_NAMES[p.ops[oi].code]));
+            if (o.used != used) sink.fail(was_failed || error_class_op ? "C09.writer.counter_stopped" : "C04.counter", fmt("cap=%zu: counter=%zu after call %zu (%s), reference size %zu", cap, o.used, oi, OP_NAMES[p.ops[oi].code], used));
         }
         if (sink.failed()) break;
         if (!failed) k = used;
@@ -231,7 +249,7 @@ Result capacity_execute(const Plan &p, const ExecCtx &c) {
         if (nullerr) bump(r.cnt, "capacity.null_error_runs");
     }
     // ---- retry protocol: same calls with a buffer of the reported size succeed and fill it exactly
-    if (!sink.failed() && !has_null && only < 0) {
+    if (!sink.failed() && !has_null && !has_phantom && only < 0) {
         WSession ws(tr, sink, r.cnt);
         ws.tag = "retry ";
         ws.setup(p.prefill);
